@@ -266,8 +266,14 @@ ActionClauses(e) ==
                       LET a == Fl(pre.items)[k]  b == Fl(o.items)[k]
                           nomem(f) == [f EXCEPT !.src = [f.src EXCEPT !.mem = <<>>], !.dst = [f.dst EXCEPT !.mem = <<>>]]
                       IN  b.kind = a.kind /\ b.text = a.text /\ nomem(b.f) = nomem(a.f), e, "C17.member-edit-changed-something-else")
-    [] e.act = "EditEntry" -> Chk(e.exc = "", e, "C17.edit-raised")         \* an entry edited in place through its own API: no prediction,
-                                                                          \* the consistency clauses and the following steps judge the result
+    [] e.act = "EditEntry" ->       \* an entry edited in place through its own API: no prediction for an accepted edit (the consistency
+                                    \* clauses and the following steps judge the result); a text the address grammar refuses must raise
+                                    \* and leave the list exactly as it was - renderable, with every entry as before
+         IF e.refuse
+         THEN IF Len(Aces(pre.items)) = 0 THEN <<>>
+              ELSE Chk(e.exc # "", e, "C17.invalid-address-accepted-by-an-edit")
+                   \o Chk(~e.unrender /\ o = pre, e, "C17.refused-edit-left-the-entry-half-updated")
+         ELSE Chk(e.exc = "", e, "C17.edit-raised")
     [] e.act \in {"Shading", "ShadowOf", "DeleteShadow"} -> <<>>      \* handled by ShadowClauses
     [] OTHER -> Fail(e, "machinery.unknown-action")
 
